@@ -15,7 +15,7 @@ DECIDES = ('surface fitting is direction-coherent and layout-correct in both pas
            'of the first and last data points (rows) and the interior solve loops never write them (END2); every flat work array is addressed as '
            'v-part + row length * u-part (LY1p); computed knot vectors are clamped by construction: degree + 1 leading zeros and trailing ones '
            'around exactly n - p - 1 interior knots (KV1; [SKEL, bounded] total length n + p + 1); the collocation matrix row i places the '
-           'degree + 1 basis values at columns span - degree .. span (CM1); the single-function basis routine used by the least-squares fitters has half-open support and degree-zero indicator (HO2).')
+           'degree + 1 basis values at columns span - degree .. span (CM1); the single-function basis routine used by the least-squares fitters has half-open support and degree-zero indicator (HO2). a boolean option of a fitting function is forwarded to every call of the helper that receives it (OP1); the linear solver behind interpolation and approximation uses a row-permuted matrix only together with its permutation, applied as P to the right-hand side (PV2, PV3).')
 NOT_DECIDED = 'the interpolation conditions C(u_k) = Q_k, the normal equations and minimality, the parameter values themselves, solvability of the linear systems: numerical.'
 TECHNIQUE = 'abstract interpretation of list layouts over symbolic sizes, axis tags, interval reasoning on loop ranges'
 
@@ -38,6 +38,9 @@ def check(m, run):
     kv1(m, run)
     cm1(m, run)
     options_forwarded(m, run)
+    from . import c16
+    c16.pv2(m, run)
+    c16.pv3(m, run, m.func('linalg.matrix_pivot'))
     from . import c03
     c03.ho2(m, run)     # least-squares fitting evaluates N_i(u_k) with the single-function routine: half-open spans
     try:
